@@ -478,6 +478,31 @@ XPathEvaluator::evaluate(
 
 
 
+class BreakConnections
+{
+public:
+
+    BreakConnections(XPathExecutionContextDefault&  theExecutionContext) :
+        m_executionContext(theExecutionContext)
+    {
+    }
+
+    ~BreakConnections()
+    {
+        m_executionContext.setXPathEnvSupport(0);
+
+        m_executionContext.setXObjectFactory(0);
+
+        m_executionContext.setDOMSupport(0);
+    }
+
+private:
+
+    XPathExecutionContextDefault&   m_executionContext;
+};
+
+
+
 XObjectPtr
 XPathEvaluator::evaluate(
             DOMSupport&             domSupport,
@@ -498,6 +523,11 @@ XPathEvaluator::evaluate(
 
     m_executionContext->setDOMSupport(&domSupport);
 
+    // Break the connections when leaving, also when the evaluation
+    // throws.  The support objects belong to the caller, and may not
+    // exist any more the next time we get here.
+    const BreakConnections  theBreakConnections(*m_executionContext.get());
+
     // The context node is the only node in the context node list,
     // so position() and last() are 1.
     MutableNodeRefList  theContextNodeList(m_memoryManager);
@@ -514,13 +544,6 @@ XPathEvaluator::evaluate(
             contextNode,
             prefixResolver,
             *m_executionContext.get()));
-
-    // Break the connectons we set...
-    m_executionContext->setXPathEnvSupport(0);
-
-    m_executionContext->setXObjectFactory(0);
-
-    m_executionContext->setDOMSupport(0);
 
     return theResult;
 }
